@@ -17,6 +17,7 @@ pub fn dispatch(op: &str, req: &Value) -> Option<R> {
         "tx_codec" => tx_codec(req),
         "txin_codec" => txin_codec(req),
         "criteria" => criteria(req),
+        "docs" => docs(req),
         _ => return None,
     })
 }
@@ -536,4 +537,20 @@ fn criteria(req: &Value) -> R {
         "inputs": sub0(|| tx.match_inputs(&c), |v| json!(v)),
         "input": sub0(|| tx.match_input(&c), |v| json!(v)),
     }))
+}
+
+/// Library-produced JSON / CBOR documents of a transaction and of its inputs (corpus material for the decoder workloads).
+fn docs(req: &Value) -> R {
+    let mut tx = Transaction::from_bytes(&hx(req, "tx")?).map_err(|e| drv(format!("tx parse: {}", e)))?;
+    apply_ext(&mut tx, req)?;
+    let mut ins = vec![];
+    for i in 0..tx.get_ninputs() {
+        let t = tx.get_input(i).unwrap();
+        ins.push(json!({"json": t.to_json_string().map_err(lib)?, "cbor": h(&t.to_compact_bytes().map_err(lib)?)}));
+    }
+    let mut outs = vec![];
+    for i in 0..tx.get_noutputs() {
+        outs.push(json!({"json": tx.get_output(i).unwrap().to_json_string().map_err(lib)?}));
+    }
+    Ok(json!({"json": tx.to_json_string().map_err(lib)?, "cbor": h(&tx.to_compact_bytes().map_err(lib)?), "ins": ins, "outs": outs}))
 }
